@@ -423,33 +423,36 @@ def _edit_phase(lineage, R, ev, env, stat, bad):
     members.append(R)
     labels.append("dst")
     di = len(members) - 1
-    blob = pickle.dumps(members)
     base_alias = _alias_sig(members)
     base_snaps = [TM.snapshot(t) for t in members]
-    first = True
+    # the whole family is cloned for edits of the result; for an edit of another member only that member and the
+    # result (plus whatever they reference) are cloned.  pickle keeps the aliasing between them; verified once.
+    full = pickle.loads(pickle.dumps(members))
+    if _alias_sig(full) != base_alias or [TM.snapshot(t) for t in full] != base_snaps:
+        stat["clone_unfaithful"] += 1
+        return
     for xi in range(len(members)):
+        if xi == di:
+            blob, idx = pickle.dumps(members), list(range(len(members)))
+        else:
+            blob, idx = pickle.dumps([members[xi], R]), [xi, di]
         for ed in EDITS:
             if ed == "add_bond" and members[xi].n_atoms < 2:
                 continue
             clone = pickle.loads(blob)
-            if first:
-                first = False
-                if _alias_sig(clone) != base_alias or [TM.snapshot(t) for t in clone] != base_snaps:
-                    stat["clone_unfaithful"] += 1
-                    return
             stat["edits"] += 1
             try:
-                apply_edit(clone[xi], ed)
+                apply_edit(clone[idx.index(xi)], ed)
             except Exception:
                 stat["edits_raised"] += 1
                 continue
-            for yi in range(len(members)):
-                if yi == xi or not (xi == di or yi == di):
+            for ci, yi in enumerate(idx):
+                if yi == xi:
                     continue
                 stat["edit_pairs"] += 1
-                s = TM.snapshot(clone[yi])
+                s = TM.snapshot(clone[ci])
                 if s != base_snaps[yi]:
-                    part = [TM.SNAP_PARTS[p] for p in range(4) if s[p] != base_snaps[yi][p]]
+                    part = [TM.SNAP_PARTS[p] for p in range(len(s)) if s[p] != base_snaps[yi][p]]
                     bad("indep|%s|edit=%s@%s|changed=%s.%s" % (k, ed, labels[xi], labels[yi], "+".join(part)),
                         "after %s on the %s topology the %s topology no longer equals its snapshot (%s changed)" % (
                             ed, labels[xi], labels[yi], "+".join(part)), [ev])
